@@ -484,6 +484,34 @@ def est_contexts(case):
     return out
 
 
+def in_statement(case, ctx, res):
+    """is this estimate call one the property speaks about? (every epoch has a candidate, the observation features
+    exist and a position is made of enough numeric fields, and what is declared to be likelihoods is not negative)"""
+    N, R, YD = case["N"], case["R"], case["YD"]
+    st = ctx["step"]
+    mode = st.get("mode", 0)
+    SL = case["models"][ctx["S"]]["S"]
+    PT, QT = case["models"][ctx["P"]]["P"], case["models"][ctx["Q"]]["Q"]
+    n = [len(r) for r in SL]
+    if any(x == 0 for x in n) or math.prod(n) > CAP:
+        return False                                  # an epoch without candidates: outside the quantifier
+    if any(c is None for row in res["pre"] for c in row):
+        return False                                  # an observation feature the track does not have
+    if len(st["obs"]) < fields_needed(mode):
+        return False                                  # too few fields for a position
+    if any(isinstance(c, list) and c[0] == "?" for row in res["pre"] for c in row):
+        return False
+    if any(isinstance(c, list) for row in res["pre"] for c in row[:fields_needed(mode)]):
+        return False                                  # a position made of something that is not a number
+    if ctx["flag"] is not True:
+        codes = [code_of_pre(res["pre"][k], mode, R, YD) for k in range(N)]
+        used = [PT[k][lab][codes[k]] for k in range(N) for lab in SL[k]] + \
+               [QT[k][a][b] for k in range(N - 1) for a in SL[k] for b in SL[k + 1]]
+        if any(not (v >= 0) for v in used):
+            return False                              # declared as likelihoods, but a value is negative: not a model
+    return True
+
+
 def check_est(case, ctx, res, i):
     """the property on one estimate call; None when it holds or when the call is outside the statement"""
     N, L, R, YD = case["N"], case["L"], case["R"], case["YD"]
@@ -492,16 +520,9 @@ def check_est(case, ctx, res, i):
     SL = case["models"][ctx["S"]]["S"]
     PT, QT = case["models"][ctx["P"]]["P"], case["models"][ctx["Q"]]["Q"]
     n = [len(r) for r in SL]
-    if any(x == 0 for x in n) or math.prod(n) > CAP:
-        return None                                   # an epoch without candidates: outside the quantifier
-    if any(c is None for row in res["pre"] for c in row):
-        return None                                   # an observation feature the track does not have
-    if len(st["obs"]) < fields_needed(mode):
-        return None                                   # too few fields for a position
-    if any(isinstance(c, list) and c[0] == "?" for row in res["pre"] for c in row):
+    if not in_statement(case, ctx, res):
         return None
-    if any(isinstance(c, list) for row in res["pre"] for c in row[:fields_needed(mode)]):
-        return None                                   # a position made of something that is not a number
+    codes = [code_of_pre(res["pre"][k], mode, R, YD) for k in range(N)]
     what = "estimate call %d (object %d, track %d)" % (i, st["h"], st["t"])
     if res["status"] != "ok":
         return "%s: decoding raised %s (%s)" % (what, res["status"], res.get("detail", ""))
@@ -518,7 +539,6 @@ def check_est(case, ctx, res, i):
         idx.append(SL[k].index(lab))
     if not all(is_num(c) for c in co):
         return "%s: hmm_cost holds %r" % (what, co)
-    codes = [code_of_pre(res["pre"][k], mode, R, YD) for k in range(N)]
     msgs = []
     for flag in ([True, False] if ctx["flag"] is None else [ctx["flag"]]):
         try:
@@ -568,14 +588,7 @@ def prefix_costs_ok(case, ctx, res):
 def tie_ok(case, ctx, res, i):
     """a result that differs from the model's is accepted iff the call is inside the statement, the result is optimal
     and the recorded costs are the prefix costs of the recorded sequence"""
-    SL = case["models"][ctx["S"]]["S"]
-    if any(len(r) == 0 for r in SL) or math.prod(len(r) for r in SL) > CAP:
-        return False
-    if any(c is None or (isinstance(c, list) and c[0] == "?") for row in res["pre"] for c in row):
-        return False
-    if len(ctx["step"]["obs"]) < fields_needed(ctx["step"].get("mode", 0)):
-        return False
-    if any(isinstance(c, list) for row in res["pre"] for c in row[:fields_needed(ctx["step"].get("mode", 0))]):
+    if not in_statement(case, ctx, res):
         return False
     if check_est(case, ctx, res, i) is not None:
         return False
@@ -616,6 +629,25 @@ def cells_equal(a, b):
     return True
 
 
+def same_shape(case, ctx, a, b):
+    """two partially written hmm_inference columns: states at the same epochs, each a candidate of its epoch; other
+    cells equal"""
+    if a is None or b is None or len(a) != len(b):
+        return False
+    SL = case["models"][ctx["S"]]["S"]
+    as_num = case["sflav"] == "int"
+    for k, (x, y) in enumerate(zip(a, b)):
+        if as_num:
+            if x != y and not (is_num(x) and is_num(y) and x in SL[k] and y in SL[k]):
+                return False
+        elif isinstance(x, list) and isinstance(y, list):
+            if x != y and not (x[0] == y[0] == "s" and x[1] in SL[k] and y[1] in SL[k]):
+                return False
+        elif x != y:
+            return False
+    return True
+
+
 def compare(case, io, mo):
     if io.get("err") == "invalid-session" and mo.get("err") == "bad-request":
         return None
@@ -630,6 +662,11 @@ def compare(case, io, mo):
         # another optimal sequence (tie-breaking is not part of the property): accepted, the rest of the history cannot be followed
         if a["status"] == "ok" and b["status"] == "ok" and not cells_equal(a["inf"], b["inf"]) \
                 and tie_ok(case, ctxs[i], a, i):
+            return None
+        # outside the statement (an epoch without candidates: every value saturates at the sentinel and ties), the call
+        # raised on both sides after the same partial writes up to the choice among tied states
+        if a["status"] == b["status"] != "ok" and not in_statement(case, ctxs[i], a) and cells_equal(a["cost"], b["cost"]) \
+                and same_shape(case, ctxs[i], a["inf"], b["inf"]):
             return None
         return "estimate call %d: impl %s inf=%s cost=%s, model %s inf=%s cost=%s" % (
             i, a["status"], a["inf"], a["cost"], b["status"], b["inf"], b["cost"])
